@@ -8,11 +8,13 @@
 //   --free N --seed S                E5: free-running timed waits, one observation record per call
 //   --linkpool R [--links N]         E5: R rounds of N then() links; one record per round (small-buffer pool size)
 //   --race N [--batch B] --seed S    E5: N free-running rounds of get() / wait() racing the pool task; one record per batch
+//        [--timed M [--tbatch B]]    ... then M rounds of wait_for / wait_until pollers racing the pool task's claim of a kNotDeferred future
 //
 // Program text: see spec/future/gen.py.  C++ only drives, records and projects; TLC judges.
 #include <dispenso/future.h>
 #include <dispenso/thread_pool.h>
 
+#include <sys/prctl.h>
 #include <unistd.h>
 
 #include <algorithm>
@@ -881,6 +883,237 @@ struct RaceHelper {
 static std::atomic<long long> g_raceBeat{0}; // progress counter watched by the watchdog
 static std::mutex g_raceOut;
 
+// ------------------------------------- E5, second class of rounds: timed waits racing the pool thread's claim (C18)
+// "Every getter sees its result": wait_for() / wait_until() == future_status::ready tells the caller that the result
+// EXISTS (the functor has returned), whoever ran it.  A future with deferredPolicy = kNotDeferred is never run by a
+// timed waiter: the waiters sleep on the status word while the pool drives it kNotStarted -> kRunning -> kReady, so
+// the word changes TWICE under a sleeping / about-to-sleep waiter and only the second change means "done".  The window
+// "waiter has sampled the word, the kernel has not yet compared it" lies inside one step of the controlled scheduler
+// (CeWfLd .. futex), so only free-running threads can put the pool's claim into it.  The --race rounds above use get() /
+// wait() only (those claim the functor themselves); this class was missing.
+// Round: the one worker of the pool sits in a gate task; the owner makes Future(f, sched, async, kNotDeferred) (or
+// dispenso::async with that policy) on the ThreadPool / a TaskSet / a ConcurrentTaskSet, hands copies to 3 poller
+// threads which start spinning on wait_for(tiny) / wait_until(now + tiny); once all of them are spinning the owner
+// (polling too) opens the gate after a random short spin, the worker claims and runs f, f blocks until the owner -
+// some polls later - releases it, f sets `finished` as its last statement and returns; everybody polls on until ready,
+// the owner then calls get().  Timer slack is set to 1 ns for the polling threads (an environment setting, nothing the
+// library sees) so that a poll takes a few us instead of 50+ us: more polls cross the claim.
+// Judgements (one record per batch, what the callers saw; no wall-clock judgement):
+//   early    timed waits that reported ready although `finished` of that round was not visible afterwards
+//   unstable futures that reported ready (correctly) and then NOT ready on a following wait_for(0) of the same thread
+//   + the judgements of the --race records (executed once, get() == the functor's value, nothing leaked, not stuck)
+struct TimedPoller {
+  std::atomic<long long> round{0}, polling{0}, done{0};
+  Future<int> copy;
+  uint64_t rng = 0;
+  long long early = 0, polls = 0, pre = 0, unstable = 0; // written by the poller before done, read by the owner after
+};
+static TimedPoller g_tp[3];
+static std::atomic<int> g_tpStop{0};
+static std::atomic<long long> g_tpStarted{0}, g_tpRelease{0}, g_tpFinished{0};
+
+// one timed wait on `f` (round `id`); true = it reported ready and the result visibly exists
+static bool timedPoll(const Future<int>& f, uint64_t& rng, long long id, long long& early, long long& polls,
+                      long long& pre, long long& unstable) {
+  static const int kNs[8] = {1, 50, 100, 200, 200, 500, 1000, 3000};
+  uint64_t x = ctl::splitmix(rng);
+  auto dur = std::chrono::nanoseconds(kNs[x & 7]);
+  std::future_status st =
+      ((x >> 3) & 1) ? f.wait_until(std::chrono::steady_clock::now() + dur) : f.wait_for(dur);
+  ++polls;
+  if (st != std::future_status::ready) {
+    if (g_tpStarted.load(std::memory_order_acquire) < id)
+      ++pre; // a timed wait that ended before the functor was claimed: the polling did start before the claim
+    return false;
+  }
+  // ready => the functor returned => its last statement (finished := id, release) happens-before the waiter's acquire
+  // load of kReady => visible here
+  if (g_tpFinished.load(std::memory_order_acquire) < id) {
+    ++early;
+    return false;
+  }
+  if (f.wait_for(std::chrono::nanoseconds(0)) != std::future_status::ready || !f.is_ready())
+    ++unstable;
+  return true;
+}
+
+static void runTimedRace(FILE* f, long long rounds, long long batch, uint64_t rng, std::atomic<long long>& curBatch,
+                         std::atomic<long long>& batchesDone, long long& nrounds, long long firstBatch) {
+  const int kPollers = 3;
+  std::thread pollers[kPollers];
+  for (int p = 0; p < kPollers; ++p) {
+    g_tp[p].rng = ctl::splitmix(rng);
+    pollers[p] = std::thread([p]() {
+      prctl(PR_SET_TIMERSLACK, 1UL, 0, 0, 0);
+      tlsWaiter = 2 + p;
+      TimedPoller& me = g_tp[p];
+      long long seen = 0;
+      while (!g_tpStop.load(std::memory_order_acquire)) {
+        long long r = me.round.load(std::memory_order_acquire);
+        if (r == seen)
+          continue;
+        seen = r;
+        me.polling.store(r, std::memory_order_release);
+        while (!timedPoll(me.copy, me.rng, r, me.early, me.polls, me.pre, me.unstable)) {
+        }
+        me.copy = Future<int>();
+        me.done.store(r, std::memory_order_release);
+      }
+    });
+  }
+  prctl(PR_SET_TIMERSLACK, 1UL, 0, 0, 0);
+  long long gid = g_tpFinished.load();
+  for (long long b = 0; b * batch < rounds; ++b) {
+    curBatch.store(firstBatch + b);
+    long long n = std::min(batch, rounds - b * batch);
+    std::unique_ptr<std::atomic<int>[]> execs(new std::atomic<int>[n]);
+    std::unique_ptr<std::atomic<int>[]> inl(new std::atomic<int>[n]);
+    for (long long i = 0; i < n; ++i) {
+      execs[i].store(0);
+      inl[i].store(0);
+    }
+    std::atomic<long long> flive{0};
+    std::atomic<long long> gateStarted{0}, gateOpen{0};
+    long long diff = 0, ninl = 0, early = 0, polls = 0, pre = 0, mid = 0, unstable = 0;
+    {
+      std::lock_guard<std::mutex> lk(g_reg.mu);
+      g_reg.clear();
+    }
+    auto* pool = new dispenso::ThreadPool(1);
+    auto* ts5 = new dispenso::TaskSet(*pool);
+    auto* ts6 = new dispenso::ConcurrentTaskSet(*pool);
+    auto scheduleGate = [&](long long g) {
+      pool->schedule(
+          [&gateStarted, &gateOpen, g]() {
+            gateStarted.store(g, std::memory_order_release);
+            while (gateOpen.load(std::memory_order_acquire) < g) {
+            }
+          },
+          dispenso::ForceQueuingTag());
+    };
+    scheduleGate(1);
+    for (long long i = 0; i < n; ++i) {
+      const long long g = i + 1;
+      const long long id = ++gid;
+      while (gateStarted.load(std::memory_order_acquire) < g) {
+      }
+      uint64_t x = ctl::splitmix(rng);
+      int kind = (x & 3) == 3 ? 2 : (x & 3) == 2 ? 1 : 0; // 0 ThreadPool, 1 TaskSet, 2 ConcurrentTaskSet
+      bool viaAsync = ((x >> 3) & 3) == 0;
+      int prePolls = (int)((x >> 5) & 3); // the owner's own polls before it opens the gate
+      int spin = (int)((x >> 8) % 400); // ... and a short spin, so that the claim lands anywhere in the pollers' cycles
+      int midPolls = (int)((x >> 20) & 3); // the owner's polls between "functor started" and the release
+      std::atomic<int>* cnt = &execs[i];
+      std::atomic<int>* in = &inl[i];
+      const int val = (int)((id & 0xfffff) * 16);
+      RaceProbe probe(&flive);
+      auto fn = [cnt, in, val, id, probe]() -> int {
+        if (tlsWaiter)
+          in->store(tlsWaiter, std::memory_order_relaxed);
+        g_tpStarted.store(id, std::memory_order_release);
+        int e = cnt->fetch_add(1, std::memory_order_acq_rel);
+        while (g_tpRelease.load(std::memory_order_acquire) < id) {
+        }
+        g_tpFinished.store(id, std::memory_order_release);
+        return val + e;
+      };
+      std::launch policy =
+          static_cast<std::launch>(static_cast<int>(std::launch::async) | static_cast<int>(dispenso::kNotDeferred));
+      Future<int> fut;
+      if (viaAsync) {
+        if (kind == 0)
+          fut = dispenso::async(*pool, policy, std::move(fn));
+        else if (kind == 1)
+          fut = dispenso::async(*ts5, policy, std::move(fn));
+        else
+          fut = dispenso::async(*ts6, policy, std::move(fn));
+      } else {
+        if (kind == 0)
+          fut = Future<int>(std::move(fn), *pool, std::launch::async, dispenso::kNotDeferred);
+        else if (kind == 1)
+          fut = Future<int>(std::move(fn), *ts5, std::launch::async, dispenso::kNotDeferred);
+        else
+          fut = Future<int>(std::move(fn), *ts6, std::launch::async, dispenso::kNotDeferred);
+      }
+      scheduleGate(g + 1); // the worker never goes idle
+      for (int p = 0; p < kPollers; ++p) {
+        g_tp[p].copy = fut;
+        g_tp[p].round.store(id, std::memory_order_release);
+      }
+      for (int p = 0; p < kPollers; ++p)
+        while (g_tp[p].polling.load(std::memory_order_acquire) != id) {
+        }
+      bool ready = false;
+      for (int k = 0; k < prePolls; ++k)
+        timedPoll(fut, rng, id, early, polls, pre, unstable);
+      for (volatile int k = 0; k < spin; ++k) {
+      }
+      gateOpen.store(g, std::memory_order_release); // the worker leaves the gate, pops the future's task and claims it
+      while (g_tpStarted.load(std::memory_order_acquire) < id)
+        timedPoll(fut, rng, id, early, polls, pre, unstable);
+      for (int k = 0; k < midPolls; ++k) {
+        long long p0 = polls, e0 = early;
+        timedPoll(fut, rng, id, early, polls, pre, unstable);
+        if (polls > p0 && early == e0)
+          ++mid; // a timed wait that began and ended while the functor was running
+      }
+      g_tpRelease.store(id, std::memory_order_release);
+      while (!ready)
+        ready = timedPoll(fut, rng, id, early, polls, pre, unstable);
+      int v = fut.get();
+      if (v != val)
+        ++diff;
+      for (int p = 0; p < kPollers; ++p)
+        while (g_tp[p].done.load(std::memory_order_acquire) != id) {
+        }
+      if (in->load(std::memory_order_relaxed))
+        ++ninl;
+      g_raceBeat.fetch_add(1, std::memory_order_relaxed);
+    }
+    gateOpen.store(n + 2, std::memory_order_release);
+    for (int p = 0; p < kPollers; ++p) {
+      early += g_tp[p].early;
+      polls += g_tp[p].polls;
+      pre += g_tp[p].pre;
+      unstable += g_tp[p].unstable;
+      g_tp[p].early = g_tp[p].polls = g_tp[p].pre = g_tp[p].unstable = 0;
+    }
+    // every handle is gone; a broken task-set counter makes wait() hang: the watchdog writes the stuck record
+    ts5->wait();
+    ts6->wait();
+    long long tsc = (long long)ts5->outstandingTaskCount_.load() + (long long)ts6->outstandingTaskCount_.load();
+    delete ts5;
+    delete ts6;
+    delete pool; // every queued task has been invoked
+    long long multi = 0, never = 0, live = 0;
+    {
+      std::lock_guard<std::mutex> lk(g_reg.mu);
+      live = (long long)g_reg.live.size();
+    }
+    for (long long i = 0; i < n; ++i) {
+      int e = execs[i].load();
+      if (e > 1)
+        ++multi;
+      else if (e < 1)
+        ++never;
+    }
+    nrounds += n;
+    {
+      std::lock_guard<std::mutex> lk(g_raceOut);
+      fprintf(f, "{\"e\":\"TimedRace\",\"batch\":%lld,\"rounds\":%lld,\"nd\":%lld,\"multi\":%lld,\"never\":%lld,\"diff\":%lld,"
+                 "\"flive\":%lld,\"live\":%lld,\"tsc\":%lld,\"inl\":%lld,\"inlnd\":%lld,\"stuck\":0,"
+                 "\"early\":%lld,\"unstable\":%lld,\"polls\":%lld,\"pre\":%lld,\"mid\":%lld}\n",
+              firstBatch + b, n, n, multi, never, diff, flive.load(), live, tsc, ninl, ninl, early, unstable,
+              std::min<long long>(polls, 2000000000LL), std::min<long long>(pre, 2000000000LL), mid);
+      fflush(f);
+    }
+    batchesDone.fetch_add(1);
+  }
+  g_tpStop.store(1, std::memory_order_release);
+  for (auto& t : pollers)
+    t.join();
+}
+
 static int runRace(const drv::Args& a) {
   std::string out = a.str("out", "race.ndjson");
   FILE* f = fopen(out.c_str(), "w");
@@ -1106,9 +1339,12 @@ static int runRace(const drv::Args& a) {
       _exit(0);
     }
   }
-  finished.store(1);
   hs.stop.store(1, std::memory_order_release);
   helper.join();
+  tlsWaiter = 1;
+  if (!bail && a.num("timed", 0) > 0) // second class of rounds: timed waits racing the pool thread's claim
+    runTimedRace(f, a.num("timed", 0), a.num("tbatch", 500), rng, curBatch, batchesDone, nrounds, batchesDone.load());
+  finished.store(1);
   {
     std::lock_guard<std::mutex> lk(g_raceOut);
     fclose(f);
